@@ -83,7 +83,7 @@ pub fn property() -> Property {
         level: "exploration",
         rule: "noalloc: the C01 domain (rich files with overrides/corruption, mutated sample objects, raw bytes x walker arguments); a counting global allocator opens a per-thread window around the whole allocation-free walk of the slice-parser API (open under all specs, every accessor, lazy table, iterator, hash lookup, symbol-version query, stand-alone constructor, Display/Debug of every ParseError into a stack sink); oracle: allocation count == 0 on Ok and Err paths alike. Non-trivial: the input opened or a stand-alone parser got past validation; distinct by (input,args) hash. features: the power set of {alloc,std,to_str} enumerated exhaustively: `cargo check --no-default-features --features S` for all 8 subsets on the host, and for the 4 subsets without std a build for x86_64-unknown-none with -Zbuild-std=core[,alloc], where any reference to std (or to alloc when the feature is off) cannot resolve.",
         assumptions: &["the *_to_string helpers return String by design and are exercised outside the allocation window (C19)", "feature builds use the nightly toolchain's build-std for the bare-metal target"],
-        subs: vec![Sub::new("noalloc", c01::oracle_noalloc, 3000, 300_000, 10_000_000).shrink(3000), Sub::new("noalloc_raw", c01::oracle_noalloc_raw, 600, 20_000, 200_000).shrink(3000)],
+        subs: vec![Sub::new("noalloc", c01::oracle_noalloc, 3000, 250_000, 8_000_000).shrink(3000), Sub::new("noalloc_raw", c01::oracle_noalloc_raw, 600, 20_000, 200_000).shrink(3000)],
         extras: vec![features, crate::fuzz::c06_campaign],
     }
 }
